@@ -151,6 +151,7 @@ def one_case(rng, res):
     try:
         ch, desc, hooks, failed = gen_case(rng, root)
         scn = scen.build(ch, root, rng)
+        scn.params = vcommon.pick_params(rng, desc)
         scn.meta["inspect_timeout"] = timeout_for(ch)
         scn.meta["persist_links"] = desc["persist_inspection_links"] = rng.random() < 0.5
         apply_hooks(scn, ch, hooks, rng)
